@@ -517,6 +517,65 @@ fn table_case(rng: &mut Rng, cfg: &TableCfg, items: &[Ent], extra: &[(&[u8], u64
         payloads.push(hex(db.as_slice()));
         blocks.push(block_items(&db));
     }
+    // ---- the META block (LsmModel.Table.Meta): the frames after the data blocks are index / filter blocks, then the meta block
+    {
+        // located through the sfa table of contents (section "meta"; a raw "table_version" section precedes it)
+        let meta_items: Option<Vec<Ent>> = sfa::Reader::new(&path).ok().and_then(|r| {
+            let sec = r.toc().section(b"meta")?;
+            let (pos, len) = (sec.pos() as usize, sec.len() as usize);
+            let mut slice = file.get(pos..pos + len)?;
+            let b = Block::from_reader(&mut slice, CompressionType::None).ok()?;
+            if b.header.block_type == BlockType::Meta { Some(block_items(&DataBlock::new(b))) } else { None }
+        });
+        match meta_items {
+            None => st.count("tables.meta.block_not_found"),
+            Some(mi) => {
+                st.count("tables.meta.blocks");
+                let field = |name: &str| mi.iter().find(|e| e.key == name.as_bytes()).map(|e| e.val.clone()).unwrap_or_default();
+                let u64f = |name: &str| { let v = field(name); if v.len() >= 8 { u64::from_le_bytes(v[..8].try_into().unwrap()) } else { u64::MAX } };
+                // (a) model parse of the REAL items == the fields the implementation recovered
+                let req = format!("metaparse items={}", show_ents(&mi));
+                let model = drv.ask(&req);
+                st.evaluations += 1;
+                let created = { let v = field("created_at"); if v.len() >= 16 { u128::from_le_bytes(v[..16].try_into().unwrap()) } else { 0 } };
+                let smax_real = table.get_highest_seqno() - g;
+                let imp_prefix = format!(
+                    "ok id={} created={} dbc={} ibc={} kmin={} kmax={} smin=",
+                    m.id, created, m.data_block_count, m.index_block_count, hex(m.key_range.min()), hex(m.key_range.max())
+                );
+                let imp_suffix = format!(
+                    " smax={} fs={} ic={} tc={} wtc={} wr={} dc={} ixc={}",
+                    smax_real, m.file_size, m.item_count, m.tombstone_count, m.weak_tombstone_count, m.weak_tombstone_reclaimable,
+                    if m.data_block_compression == CompressionType::None { 0 } else { 1 },
+                    if m.index_block_compression == CompressionType::None { 0 } else { 1 }
+                );
+                if !(model.starts_with(&imp_prefix) && model.ends_with(&imp_suffix)) {
+                    mismatch(st, "ParsedMeta::load_with_handle", ctx, &req, &format!("implementation `{imp_prefix}?{imp_suffix}` model `{}`", clip(&model, 800)));
+                }
+                // (b) the model's item list, built from what the harness KNOWS about the written stream (+ the observed physical facts
+                //     created_at / file_size / index and filter block counts / crate version), == the real items one by one
+                let mut keys: Vec<&K> = items.iter().map(|e| &e.key).collect();
+                keys.dedup();
+                let reclaim = items.windows(2).filter(|w| w[0].vt == 2 && w[1].vt == 0 && w[0].key == w[1].key).count();
+                let req = format!(
+                    "metaitems dbc={} fbc={} ibc={} dc=0 ixc=0 crate={} created={} ratio={} fs={} lvl=0 ic={} kmax={} kmin={} kc={} rid={} rii=1 smax={} smin={} id={} tc={} uds={} wtc={} wr={}",
+                    blocks.len(), u64f("block_count#filter"), u64f("block_count#index"), hex(&field("crate_version")), created,
+                    hex(&cfg.hr.to_le_bytes()), u64f("file_size"), items.len(), hex(&items[items.len() - 1].key), hex(&items[0].key), keys.len(), cfg.ri,
+                    items.iter().map(|e| e.seqno).max().unwrap(), items.iter().map(|e| e.seqno).min().unwrap(), case,
+                    items.iter().filter(|e| e.is_tomb()).count(), u64f("user_data_size"), items.iter().filter(|e| e.vt == 2).count(), reclaim
+                );
+                let model = drv.ask(&req);
+                st.evaluations += 1;
+                let imp = format!("items={} sorted=1 block=", show_ents(&mi));
+                if !model.starts_with(&imp) {
+                    mismatch(st, "Writer::finish (meta items)", ctx, &req, &format!("implementation `{}` model `{}`", clip(&imp, 1500), clip(&model, 1500)));
+                }
+                if u64f("file_size") != m.file_size || mi.len() != 29 {
+                    st.oracle_failures.push(format!("C12 meta block: file_size item {} vs recovered {} / {} items: {ctx}", u64f("file_size"), m.file_size, mi.len()));
+                }
+            }
+        }
+    }
     let blocks_s = show_ids(&blocks.iter().map(Vec::len).collect::<Vec<_>>());
     let index_s = blocks.iter().map(|b| b.last().map_or("?".into(), |e| format!("{}:{}", hex(&e.key), e.seqno))).collect::<Vec<_>>().join(",");
     if blocks.concat() != items {
